@@ -30,6 +30,7 @@ import (
 	"github.com/rqlite/rqlite/v10/http/console"
 	"github.com/rqlite/rqlite/v10/http/licenses"
 	"github.com/rqlite/rqlite/v10/internal/rtls"
+	"github.com/rqlite/rqlite/v10/internal/verifhook"
 	"github.com/rqlite/rqlite/v10/proxy"
 	"github.com/rqlite/rqlite/v10/queue"
 	"github.com/rqlite/rqlite/v10/store"
@@ -1337,6 +1338,7 @@ func (s *Service) queuedExecute(w http.ResponseWriter, r *http.Request, qp Query
 		return
 	}
 	resp.SequenceNum = seqNum
+	verifhook.Note("http.queue.accepted "+s.addr, seqNum)
 
 	if qp.Wait() {
 		// Wait for the flush channel to close, or timeout.
@@ -1765,6 +1767,7 @@ func (s *Service) runQueue() {
 		case <-s.closeCh:
 			return
 		case req := <-s.stmtQueue.C:
+			verifhook.Note("http.queue.batch "+s.addr, req.SequenceNumber)
 			er := &proto.ExecuteRequest{
 				Request: &proto.Request{
 					Statements:  req.Objects,
@@ -1806,6 +1809,7 @@ func (s *Service) runQueue() {
 					}
 
 					stats.Add(numQueuedExecutionsFailed, 1)
+					verifhook.Note("http.queue.retry "+s.addr, req.SequenceNumber)
 					time.Sleep(retryDelay)
 				}
 			}
@@ -1813,6 +1817,7 @@ func (s *Service) runQueue() {
 			// Perform post-write processing.
 			atomic.StoreInt64(&s.seqNum, req.SequenceNumber)
 			req.Close()
+			verifhook.Note("http.queue.done "+s.addr, req.SequenceNumber)
 			stats.Add(numQueuedExecutionsStmtsTx, int64(len(req.Objects)))
 			stats.Add(numQueuedExecutionsOK, 1)
 		}
